@@ -5,7 +5,8 @@
 (*                                                                         *)
 (* Topologies: structured quad grids n x m, an unstructured O-grid (core    *)
 (* quad + ring of quads, valence-3 points), its refinement with a second   *)
-(* ring, and structured hex grids n x m x k.  Boundary and neighbour       *)
+(* ring, structured hex grids n x m x k, and L-shaped quad/hex regions     *)
+(* (a grid without one quadrant, unevenly spaced).  Boundary and neighbour *)
 (* relations are DEFINED here from the cells:                              *)
 (*   a side (quad: edge, hex: face) is a boundary side iff exactly one     *)
 (*   cell has it; a boundary point is a point of a boundary side;          *)
@@ -32,14 +33,35 @@ HexGrid(n, m, k) == { [c \in 1..8 |-> LET q == XYZ(c - 1) IN HV(n, m, i + q[1], 
 HexCoords(n, m, k) == [v \in 0..((n + 1) * (m + 1) * (k + 1) - 1) |->
                          << 2 * (v % (n + 1)), 2 * ((v \div (n + 1)) % (m + 1)), 2 * (v \div ((n + 1) * (m + 1))) >>]
 
+\* L-shaped regions: the grid without the quadrant i >= a, j >= b (re-entrant corner: a boundary point that three cells
+\* meet, one of them with interior sides only), unevenly spaced so that no point is at its neighbours' average by
+\* symmetry; point ids are renumbered densely
+Range(f) == { f[x] : x \in DOMAIN f }
+Stretch == << 0, 2, 5, 7, 12, 14, 19 >>
+Rank(S, v) == Cardinality({ u \in S : u < v })
+Dense(cells) == LET used == UNION { Range(c) : c \in cells } IN { [q \in DOMAIN c |-> Rank(used, c[q])] : c \in cells }
+DenseCoords(cells, coords) == LET used == UNION { Range(c) : c \in cells } IN
+                              [r \in 0..(Cardinality(used) - 1) |-> coords[CHOOSE v \in used : Rank(used, v) = r]]
+LKeep(n, m, a, b) == { ij \in (0..(n - 1)) \X (0..(m - 1)) : ~(ij[1] >= a /\ ij[2] >= b) }
+LQuadRaw(n, m, a, b) == { << QV(n, ij[1], ij[2]), QV(n, ij[1] + 1, ij[2]), QV(n, ij[1] + 1, ij[2] + 1), QV(n, ij[1], ij[2] + 1) >> :
+                            ij \in LKeep(n, m, a, b) }
+LQuadCoords(n, m) == [v \in 0..((n + 1) * (m + 1) - 1) |-> << Stretch[(v % (n + 1)) + 1], Stretch[(v \div (n + 1)) + 1], 0 >>]
+LHexRaw(n, m, k, a, b) == { [c \in 1..8 |-> LET q == XYZ(c - 1) IN HV(n, m, ij[1] + q[1], ij[2] + q[2], l + q[3])] :
+                              ij \in LKeep(n, m, a, b), l \in 0..(k - 1) }
+LHexCoords(n, m, k) == [v \in 0..((n + 1) * (m + 1) * (k + 1) - 1) |->
+                          << Stretch[(v % (n + 1)) + 1], Stretch[((v \div (n + 1)) % (m + 1)) + 1], Stretch[(v \div ((n + 1) * (m + 1))) + 1] >>]
+
 Topology(t) ==
-    CASE t.kind = "quadgrid" -> [dim |-> 2, cells |-> QuadGrid(t.n, t.m), coords |-> QuadCoords(t.n, t.m)]
+    CASE t.kind = "lquad" -> [dim |-> 2, cells |-> Dense(LQuadRaw(t.n, t.m, t.a, t.b)),
+                              coords |-> DenseCoords(LQuadRaw(t.n, t.m, t.a, t.b), LQuadCoords(t.n, t.m))]
+      [] t.kind = "lhex" -> [dim |-> 3, cells |-> Dense(LHexRaw(t.n, t.m, t.k, t.a, t.b)),
+                             coords |-> DenseCoords(LHexRaw(t.n, t.m, t.k, t.a, t.b), LHexCoords(t.n, t.m, t.k))]
+      [] t.kind = "quadgrid" -> [dim |-> 2, cells |-> QuadGrid(t.n, t.m), coords |-> QuadCoords(t.n, t.m)]
       [] t.kind = "ogrid" -> [dim |-> 2, cells |-> OGrid, coords |-> OGridCoords]
       [] t.kind = "ogrid2" -> [dim |-> 2, cells |-> OGrid2, coords |-> OGrid2Coords]
       [] t.kind = "hexgrid" -> [dim |-> 3, cells |-> HexGrid(t.n, t.m, t.k), coords |-> HexCoords(t.n, t.m, t.k)]
 
 \* ---- declarative relations -------------------------------------------------
-Range(f) == { f[x] : x \in DOMAIN f }
 QuadEdges(c) == { {c[1], c[2]}, {c[2], c[3]}, {c[3], c[4]}, {c[4], c[1]} }
 HexFaces(c) == { { c[x + 1] : x \in SideCorners(s) } : s \in SideNames }
 HexEdges(c) == { { c[x + 1] : x \in e } : e \in EdgeSet }
@@ -53,15 +75,21 @@ Neigh(T, v) == { w \in Points(T) : {v, w} \in AllEdges(T) } \ {v}
 
 \* ---- generator ---------------------------------------------------------------
 CONSTANTS MaxQ, MaxH
-Topos == { [kind |-> "quadgrid", n |-> n, m |-> m, k |-> 0] : n \in 1..MaxQ, m \in 1..MaxQ }
-         \cup { [kind |-> "ogrid", n |-> 0, m |-> 0, k |-> 0], [kind |-> "ogrid2", n |-> 0, m |-> 0, k |-> 0] }
-         \cup { [kind |-> "hexgrid", n |-> n, m |-> m, k |-> k] : n \in 1..MaxH, m \in 1..MaxH, k \in 1..MaxH }
+Topos == { [kind |-> "quadgrid", n |-> n, m |-> m, k |-> 0, a |-> 0, b |-> 0] : n \in 1..MaxQ, m \in 1..MaxQ }
+         \cup { [kind |-> "ogrid", n |-> 0, m |-> 0, k |-> 0, a |-> 0, b |-> 0], [kind |-> "ogrid2", n |-> 0, m |-> 0, k |-> 0, a |-> 0, b |-> 0] }
+         \cup { [kind |-> "hexgrid", n |-> n, m |-> m, k |-> k, a |-> 0, b |-> 0] : n \in 1..MaxH, m \in 1..MaxH, k \in 1..MaxH }
+         \cup { [kind |-> "lquad", n |-> n, m |-> m, k |-> 0, a |-> a, b |-> b] : n \in 3..MaxQ, m \in 3..MaxQ, a \in 1..(MaxQ - 1), b \in 1..(MaxQ - 1) }
+         \cup { [kind |-> "lhex", n |-> n, m |-> m, k |-> k, a |-> a, b |-> b] : n \in 2..(MaxH + 1), m \in 2..(MaxH + 1), k \in 1..MaxH, a \in 1..MaxH, b \in 1..MaxH }
 VARIABLE x
-GenInit == x \in Topos
+GenInit == x \in { t \in Topos : t.kind \in {"lquad", "lhex"} => (t.a < t.n /\ t.b < t.m) }
 GenSpec == GenInit /\ [][UNCHANGED x]_x
 \* an interior point of a structured grid has 2 * dim neighbours; every point has at least dim
 ValenceOK == LET T == Topology(x) IN
              /\ \A v \in Points(T) : Cardinality(Neigh(T, v)) >= T.dim
+             \* a re-entrant corner is on the boundary although one of the cells around it has it on interior sides only
+             /\ (x.kind = "lquad" \/ (x.kind = "lhex" /\ x.k >= 2)) =>
+                  LET bs == BoundarySides(T) IN
+                  \E v \in UNION bs : \E c \in T.cells : v \in Range(c) /\ \A sd \in SidesOf(T.dim, c) : v \in sd => sd \notin bs
              /\ x.kind \in {"quadgrid", "hexgrid"} => \A v \in Points(T) \ Boundary(T) : Cardinality(Neigh(T, v)) = 2 * T.dim
 GenEmit == LET T == Topology(x) IN
            PrintT(ToJson([topo |-> x, dim |-> T.dim, cells |-> T.cells, coords |-> T.coords,
